@@ -207,6 +207,25 @@ impl C11 {
 			bytes.extend_from_slice(&b);
 		}
 		bytes.extend_from_slice(&TRAILER);
+		// `max_alloc_size == 1` stands for "just what the largest single field needs" (the reader's allocation cap is a
+		// per-field limit: it must not tighten as one reader goes from datum to datum)
+		let mut limits = scn.limits;
+		if limits.max_alloc_size == 1 {
+			fn max_field(v: &val::Val) -> usize {
+				use val::Val::*;
+				match v {
+					Bytes(b) | Fixed(b) => b.len(),
+					Str(s) => s.len(),
+					Array(items) | Record(items) => items.iter().map(max_field).max().unwrap_or(0),
+					Map(e) => e.iter().map(|(k, v)| k.len().max(max_field(v))).max().unwrap_or(0),
+					Union(_, inner) => max_field(inner),
+					_ => 0,
+				}
+			}
+			limits.max_alloc_size = vals.iter().map(max_field).max().unwrap_or(0).max(32);
+			out.count("long_stream_with_cap_at_the_largest_field", 1);
+		}
+		let scn = &Scn { limits, ..scn.clone() };
 		let slice_out = world::decode_stream_slice(&schema, &env, &scn.schema, &bytes, n as usize, scn.target, scn.limits);
 		out.evals += 1;
 		let mut digest = Fnv::new();
@@ -599,7 +618,7 @@ impl Prop for C11 {
 				tokens: vec![],
 				target,
 				plans: Plans::Enumerate { seed: rng.next_u64() },
-				limits: Limits::sim_default(),
+				limits: if rng.bool() { Limits::sim_default() } else { Limits { max_alloc_size: 1, ..Limits::sim_default() } },
 			};
 		}
 		let corner = ast::corner_schemas();
